@@ -62,6 +62,8 @@ type Ctx struct {
 	cases       map[string]int
 	maxInstr    int64
 	cutFix      string
+	asserted    map[*Term]bool
+	usedGhost   bool
 	nInstr      int64
 }
 
